@@ -113,8 +113,8 @@ Print Assumptions C09_diff_sort_and_search_keys_agree.
 
 (* (2) find_name as written (first probe, last probe, bisection) returns the position a scan finds -- for EVERY list that
    is strictly sorted BY THE SAME KEY, every name, every key function ... *)
-Theorem C09_diff_bisection_correct_when_sorted_by_search_key : forall key l name,
-  l <> [] -> DiffP.ksorted key l -> find_name key name l = find_scan key name l.
+Theorem C09_diff_bisection_correct_when_sorted_by_search_key : forall key m l name,
+  l <> [] -> DiffP.ksorted key l -> find_name m key name l = find_scan key name l.
 Proof. exact DiffP.find_name_correct. Qed.
 Print Assumptions C09_diff_bisection_correct_when_sorted_by_search_key.
 Theorem C09_diff_sort_sorts_by_its_key : forall key l, NoDup (map key l) -> DiffP.ksorted key (sort_names_by key l).
@@ -124,7 +124,7 @@ Print Assumptions C09_diff_sort_sorts_by_its_key.
 Theorem C09_diff_bisection_key_mismatch_refuted :
   exists l name, let raw := fun x : bytes => x in let fold := copy_name true false in
     NoDup (map fold l) /\ In name l /\
-    find_name fold name (sort_names_by raw l) <> find_scan fold name (sort_names_by raw l).
+    find_name MCur fold name (sort_names_by raw l) <> find_scan fold name (sort_names_by raw l).
 Proof. exact DiffP.find_name_key_mismatch_refuted. Qed.
 Print Assumptions C09_diff_bisection_key_mismatch_refuted.
 
@@ -132,9 +132,8 @@ Print Assumptions C09_diff_bisection_key_mismatch_refuted.
    leaves the arrays -- for every pair of child lists whose keys are distinct within each list ([rec] just records the
    pair it is called with) *)
 Theorem C09_diff_matching_exact : forall key nm1 nm2 c1 c2,
-  c2 <> [] ->
   NoDup (map key c1) -> NoDup (map key c2) ->
-  let out := diff_loop false key (fun p q => [DData p q]) (sort_names_by key c2) nm1 nm2 (sort_names_by key c1) 0 in
+  let out := diff_loop MCur false key (fun p q => [DData p q]) (sort_names_by key c2) nm1 nm2 (sort_names_by key c1) 0 in
   (forall p q, In (DData p q) out <-> In p c1 /\ In q c2 /\ key p = key q) /\
   (forall x, In (DLeft x) out <-> exists p, x = slash nm1 p /\ In p c1 /\ ~ In (key p) (map key c2)) /\
   (forall x, In (DRight x) out <-> exists q, x = slash nm2 q /\ In q c2 /\ ~ In (key q) (map key c1)) /\
@@ -153,7 +152,7 @@ Theorem C09_diff_silent_iff_equal_unordered : forall o w1 w2 fuel f1 f2 r1 r2,
   names_nonempty r1 = true -> names_nonempty r2 = true ->
   kids_ok Old false r1 = true -> kids_ok Old false r2 = true ->
   (depth r1 <= fuel)%nat ->
-  (cgnsdiff Cur o w1 w2 fuel f1 f2 = [] <->
+  (cgnsdiff Cur MCur o w1 w2 fuel f1 f2 = [] <->
    sort_nodes (map (canon_by (find_key o) (d_data o)) (kids_of r1)) =
    sort_nodes (map (canon_by (find_key o) (d_data o)) (kids_of r2))).
 Proof. exact DiffP.cgnsdiff_silent_iff. Qed.
@@ -164,7 +163,7 @@ Theorem C09_diff_cross_format_silent : forall o w1 w2 fuel f1 f2 r1 r2,
   d_recurse o = true -> get_file w1 f1 = Some r1 -> get_file w2 f2 = Some r2 -> kids_of r2 = kids_of r1 ->
   link_free r1 = true -> link_free r2 = true -> keys_unique (find_key o) r1 = true -> names_nonempty r1 = true ->
   kids_ok Old false r1 = true -> (depth r1 <= fuel)%nat ->
-  cgnsdiff Cur o w1 w2 fuel f1 f2 = [].
+  cgnsdiff Cur MCur o w1 w2 fuel f1 f2 = [].
 Proof. exact DiffP.cgnsdiff_same_forest_silent. Qed.
 Print Assumptions C09_diff_cross_format_silent.
 
@@ -179,9 +178,31 @@ Theorem C09_diff_reports_every_difference : forall o w1 w2 fuel f1 f2 r1 r2,
   (depth r1 <= fuel)%nat ->
   sort_nodes (map (canon_by (find_key o) (d_data o)) (kids_of r1)) <>
   sort_nodes (map (canon_by (find_key o) (d_data o)) (kids_of r2)) ->
-  cgnsdiff Cur o w1 w2 fuel f1 f2 <> [].
+  cgnsdiff Cur MCur o w1 w2 fuel f1 f2 <> [].
 Proof. exact DiffP.cgnsdiff_reports_difference. Qed.
 Print Assumptions C09_diff_reports_every_difference.
+
+(* (5) the point of the repair 180fd8e -- NO hypothesis on the keys: a forest compared with itself (a file and its copy) is
+   silent for every option set, also when sibling names collide after normalisation, and the loop never reads
+   children2 past its end, for ANY two lists *)
+Theorem C09_diff_self_compare_silent : forall o w1 w2 fuel f1 f2 r1 r2,
+  get_file w1 f1 = Some r1 -> get_file w2 f2 = Some r2 -> kids_of r2 = kids_of r1 ->
+  link_free r1 = true -> link_free r2 = true -> (depth r1 <= fuel)%nat ->
+  cgnsdiff Cur MCur o w1 w2 fuel f1 f2 = [].
+Proof. exact DiffP.cgnsdiff_self_silent. Qed.
+Print Assumptions C09_diff_self_compare_silent.
+Theorem C09_diff_self_compare_silent_at_any_node : forall o w1 w2 fuel name1 cf1 name2 cf2 t,
+  link_free t = true -> (depth t <= fuel)%nat ->
+  compare_nodes Cur MCur o w1 w2 fuel name1 cf1 t name2 cf2 t = [].
+Proof. exact DiffP.self_compare_silent. Qed.
+Print Assumptions C09_diff_self_compare_silent_at_any_node.
+Theorem C09_diff_loop_stays_in_bounds : forall chk key rec c2 nm1 nm2 l1 n2,
+  0 <= n2 ->
+  ~ In DOutOfBounds (diff_loop MCur chk key
+                       (fun p q => filter (fun d => match d with DOutOfBounds => false | _ => true end) (rec p q))
+                       c2 nm1 nm2 l1 n2).
+Proof. exact DiffP.diff_loop_cur_in_bounds. Qed.
+Print Assumptions C09_diff_loop_stays_in_bounds.
 
 (* the same at any pair of nodes other than the two roots (dataset arguments with -r) *)
 Theorem C09_diff_sound_complete : forall o w1 w2 fuel name1 cf1 t1 name2 cf2 t2,
@@ -192,7 +213,7 @@ Theorem C09_diff_sound_complete : forall o w1 w2 fuel name1 cf1 t1 name2 cf2 t2,
   names_nonempty t1 = true -> names_nonempty t2 = true ->
   tree_ok Old false t1 = true -> tree_ok Old false t2 = true ->
   (depth t1 <= fuel)%nat ->
-  (compare_nodes Cur o w1 w2 fuel name1 cf1 t1 name2 cf2 t2 = [] <->
+  (compare_nodes Cur MCur o w1 w2 fuel name1 cf1 t1 name2 cf2 t2 = [] <->
    strip (canon_by (find_key o) (d_data o) t1) = strip (canon_by (find_key o) (d_data o) t2)).
 Proof. exact DiffP.diff_empty_iff. Qed.
 Print Assumptions C09_diff_sound_complete.
@@ -200,7 +221,7 @@ Print Assumptions C09_diff_sound_complete.
 (* dataset arguments without -r: the two named nodes' own label / type / dimensions / data and nothing else *)
 Theorem C09_diff_without_recurse : forall o w1 w2 f name1 cf1 a1 l1 t1 d1 da1 ks1 name2 cf2 a2 l2 t2 d2 da2 ks2,
   d_recurse o = false ->
-  compare_nodes Cur o w1 w2 (S f) name1 cf1 (Node a1 l1 t1 d1 da1 ks1) name2 cf2 (Node a2 l2 t2 d2 da2 ks2) =
+  compare_nodes Cur MCur o w1 w2 (S f) name1 cf1 (Node a1 l1 t1 d1 da1 ks1) name2 cf2 (Node a2 l2 t2 d2 da2 ks2) =
   if bytes_eqb name1 [47] && bytes_eqb name2 [47] then []
   else compare_data (d_data o) name1 name2 (Node a1 l1 t1 d1 da1 ks1) (Node a2 l2 t2 d2 da2 ks2).
 Proof. exact DiffP.no_recurse_only_data. Qed.
@@ -231,23 +252,11 @@ Print Assumptions C09_follow_nested_internal_link_refuted.
 (* cgnsdiff never compares the file and path of a link *)
 Theorem C09_diff_link_target_blind_refuted :
   exists w f1 f2 r1 r2, get_file w f1 = Some r1 /\ get_file w f2 = Some r2 /\
-    cgnsdiff Cur o_d w w 8 f1 f2 = [] /\
+    cgnsdiff Cur MCur o_d w w 8 f1 f2 = [] /\
     strip (canon r1) <> strip (canon r2) /\
     full_view 8 w f1 r1 <> full_view 8 w f2 r2 /\ full_view 8 w f1 r1 <> None /\ full_view 8 w f2 r2 <> None.
 Proof. exact diff_link_target_blind. Qed.
 Print Assumptions C09_diff_link_target_blind_refuted.
-
-(* open finding: sibling names that collide after normalisation (x Y y under -c; a "b c" bc under -i; distinct raw names),
-   a file against itself: spurious lines, then children2 is read past its end; without -c / -i the pair is silent *)
-Theorem C09_diff_name_collision_refuted :
-  names_unique collide_c = true /\ keys_unique (find_key o_cd) collide_c = false /\
-  cgnsdiff Cur o_cd [([65], collide_c)] [([65], collide_c)] 5 [65] [65] =
-    [DRight [47;89]; DLabel [47;89] [47;121]; DOutOfBounds] /\
-  cgnsdiff Cur o_d [([65], collide_c)] [([65], collide_c)] 5 [65] [65] = [] /\
-  names_unique collide_i = true /\ keys_unique (find_key o_di) collide_i = false /\
-  has_oob (cgnsdiff Cur o_di [([65], collide_i)] [([65], collide_i)] 5 [65] [65]) = true.
-Proof. exact diff_name_collision. Qed.
-Print Assumptions C09_diff_name_collision_refuted.
 
 (* outside the default options: with -t<tol> the comparison is fabs(a-b) > tol, false for a NaN -- 2.0 against NaN is
    silent (with the default tolerance 0 bytes are compared and the same pair IS reported).  Flocq's binary64. *)
@@ -278,8 +287,8 @@ Theorem C09_diff_cross_format_root_label_old_refuted :
   exists w src dst w', get_file w src = Some (with_kids adf_root [Node [78] [76] I4 [1] [7;0;0;0] []]) /\
     cgnsconvert Cur 4 w src dst true false = Ok w' /\
     (forall r r', get_file w' src = Some r -> get_file w' dst = Some r' -> kids_of r' = kids_of r) /\
-    cgnsdiff Old o_d w' w' 8 src dst = [DLabel [47] [47]] /\
-    cgnsdiff Cur o_d w' w' 8 src dst = [].
+    cgnsdiff Old MOld o_d w' w' 8 src dst = [DLabel [47] [47]] /\
+    cgnsdiff Cur MCur o_d w' w' 8 src dst = [].
 Proof. exact diff_cross_format_root_label_old. Qed.
 Print Assumptions C09_diff_cross_format_root_label_old_refuted.
 
@@ -288,10 +297,30 @@ Print Assumptions C09_diff_cross_format_root_label_old_refuted.
 Theorem C09_diff_deep_path_overflow_old_refuted :
   exists w f r, get_file w f = Some r /\ link_free r = true /\ names_unique r = true /\ tree_ok Cur true r = true /\
     copy_file Cur false (fun _ _ => None) 0 false r adf_root = Ok r /\
-    has_overflow (cgnsdiff Old o_d w w 64 f f) = true /\
-    cgnsdiff Cur o_d w w 64 f f = [].
+    has_overflow (cgnsdiff Old MOld o_d w w 64 f f) = true /\
+    cgnsdiff Cur MCur o_d w w 64 f f = [].
 Proof. exact diff_deep_path_overflow_old. Qed.
 Print Assumptions C09_diff_deep_path_overflow_old_refuted.
+
+(* before 180fd8e: sibling names that collide after normalisation (x Y y under -c; a "b c" bc under -i; distinct raw names), a
+   file against itself: spurious lines, then children2 was read past its end (find_name answered the LAST entry of the run,
+   the loop paired by position); the repaired code is silent on the same pairs *)
+Theorem C09_diff_name_collision_old_refuted :
+  names_unique collide_c = true /\ keys_unique (find_key o_cd) collide_c = false /\
+  cgnsdiff Cur MOld o_cd [([65], collide_c)] [([65], collide_c)] 5 [65] [65] =
+    [DRight [47;89]; DLabel [47;89] [47;121]; DOutOfBounds] /\
+  cgnsdiff Cur MCur o_cd [([65], collide_c)] [([65], collide_c)] 5 [65] [65] = [] /\
+  names_unique collide_i = true /\ keys_unique (find_key o_di) collide_i = false /\
+  has_oob (cgnsdiff Cur MOld o_di [([65], collide_i)] [([65], collide_i)] 5 [65] [65]) = true /\
+  cgnsdiff Cur MCur o_di [([65], collide_i)] [([65], collide_i)] 5 [65] [65] = [].
+Proof. exact diff_name_collision_old. Qed.
+Print Assumptions C09_diff_name_collision_old_refuted.
+Theorem C09_find_name_old_vs_cur :
+  let fold := copy_name true false in
+  find_name MOld fold [89] [[120];[89];[121]] = 2 /\ find_name MCur fold [89] [[120];[89];[121]] = 1 /\
+  find_scan fold [89] [[120];[89];[121]] = 1.
+Proof. exact DiffP.find_name_old_vs_cur. Qed.
+Print Assumptions C09_find_name_old_vs_cur.
 
 (* ---- non-vacuity ---------------------------------------------------------------------------------------------------------------------- *)
 Example C09_hypotheses_satisfiable_copy :
